@@ -6,6 +6,8 @@ import json, os, subprocess, sys
 
 V1, V2 = sys.argv[1], sys.argv[2]
 THEME = {
+ "U": "the REMOVAL OR WEAKENING OF SOMETHING THAT LOOKS REDUNDANT: a guard, clamp, reset, re-initialisation, validation, error return, bounds test or second computation is deleted, merged with a neighbouring one or made conditional because another site 'already covers it' — which is true for the shipped examples and for the common path but not for some input, state or order of events. The diff should mostly remove or simplify code and carry a convincing 'dead code / duplicate check / already guaranteed by X' story",
+ "V": "a change in the INFRASTRUCTURE LAYER through which the property's quantities are read, carried or reported rather than in the model equations: the reflection-based output binding and record writers, the file pool and session, path and file-name construction, the configuration/defaults plumbing, the line/CSV tokenisers and header maps, struct constructors and array sizes (NewGlobalVarsMain, DualType offsets), channel/dispatcher plumbing in the mains — so that for some input the model computes the right thing but the property as observed by a user of the program (files, records, errors, which run wrote what) is broken, or the model is fed something slightly different from what the input says",
  "S": "a GO-LANGUAGE PITFALL that compiles and reads naturally: a shadowed variable (:= instead of =) so that an outer value is never updated, an array copied by value (or a slice aliased) where the other was meant, a range loop that works on copies of struct elements, integer division or a float-to-int truncation where a float/rounding was meant, an off-by-one between a 0-based Index and a 1-based Num, a map lookup whose zero value is silently used, a deferred call or an early return that skips a later update, string slicing at a fixed column that is right for the shipped files only — introduced under a plausible clean-up or feature story",
  "T": "a UNIT, SCALE or REFERENCE-FRAME slip at the hand-over between two functions or two files that are each consistent when read alone: mm vs cm, percent vs fraction, per-day vs per-sub-step, kg N/ha vs concentration, volumetric vs per-layer amounts (× layer thickness), day-of-year vs absolute day number, calendar year vs internal year offset, 0-based vs 1-based layer/stage/slot numbers, dm vs layer index — one side of the interface is changed (or a new helper is introduced and used at one of several call sites) so that the two sides no longer agree for some inputs",
  "Q": "a change that a maintainer would plausibly make as a PERFORMANCE OPTIMISATION or TIDY-UP REFACTORING — caching or memoising a value, hoisting a computation out of a loop, fusing or splitting loops, an early exit / fast path, reusing a buffer or a struct instead of re-initialising it, lazy initialisation, replacing a recomputation by an incrementally maintained value — where the staleness, the skipped work or the carried-over state breaks the property only after a specific sequence of days/events/inputs (not on the first day, not on every run)",
